@@ -724,7 +724,7 @@ static void fill_requested_extension(struct websocket *s, const char  *start, si
 			i++;
 			parameter_count++;
 			if (parameter_count == 5) return;
-			while (isspace(*(start + i))) i++;
+			while ((i < length) && isspace(*(start + i))) i++;
 			parameter[parameter_count] = start + i;
 		}
 	}
@@ -813,7 +813,7 @@ static void fill_requested_extension(struct websocket *s, const char  *start, si
 		parameter_name = "client_no_context_takeover";
 		name_length = strlen(parameter_name);
 		if (parameter_length[i] < name_length) return;
-		if (0 == memcmp(parameter_name, parameter[i], name_length)) {
+		if ((parameter_length[i] == name_length) && (0 == memcmp(parameter_name, parameter[i], name_length))) {
 			if (client_offered_c_no_takeover) return;
 			write_to_response(s, parameter_name, name_length, &response_length, 0);
 			s->extension_compression.client_no_context_takeover = true;
@@ -823,7 +823,7 @@ static void fill_requested_extension(struct websocket *s, const char  *start, si
 
 		parameter_name = "server_no_context_takeover";
 		name_length = strlen(parameter_name);
-		if (0 == memcmp(parameter_name, parameter[i], name_length)) {
+		if ((parameter_length[i] == name_length) && (0 == memcmp(parameter_name, parameter[i], name_length))) {
 			if (client_offered_s_no_takeover) return;
 			write_to_response(s, parameter_name, name_length, &response_length, 0);
 			s->extension_compression.server_no_context_takeover = true;
